@@ -28,6 +28,9 @@ var (
 	zzC07Accounts = []common.Address{{0xaa}, {0x77}, {0x11}, {0x12}, {0x21}, {0x22}}
 )
 
+// zzC07NoDlg: harnesses that do not depend on delegations may switch them off (quick tier of C06)
+var zzC07NoDlg bool
+
 type zzC07World struct {
 	s      *state.StateDB
 	cfg    *params.YouParams
@@ -74,7 +77,7 @@ func zzC07SetupX(minimal bool) *zzC07World {
 		nv.Coinbase = common.Address{0x20 + byte(i)}
 		s.UpdateValidator(nv, v)
 	}
-	if !minimal && zzverif.Bool("withDelegation") {
+	if !minimal && !zzC07NoDlg && zzverif.Bool("withDelegation") {
 		amt := zzverif.Big("dlg.token", 90)
 		zzverif.Assume(amt.Sign() > 0)
 		s.UpdateDelegation(zzC07Dlg, s.GetValidatorByMainAddr(zzValAddr(1)), amt)
